@@ -14,7 +14,8 @@
                of identities), or an input leaves the model's domain.
    violations: judged on the OBSERVED graphs only: duplicate names, a cycle, root
                count, stage shape, pipelining across a shuffle / Materialize /
-               Result, shuffle wiring and partition counts, and the observations
+               Result, shuffle wiring and partition counts, operation names without the
+               invocation's index, and the observations
                of one invocation differing from each other. *)
 From Coq Require Import List String NArith Arith Bool.
 Import ListNotations.
@@ -285,10 +286,17 @@ Section Judge.
                           && Nat.eqb (tnshard (get_task s (snd km))) (nshard rn))
                (combine (seq 0 (List.length roots)) roots).
 
+  (* operation names carry the index of the invocation that minted them, so that
+     invocations never mint the same name (stores are keyed by name and shard) *)
+  Definition op_prefix_ok (id : nat) : bool :=
+    let t := get_task s id in
+    String.prefix ("inv" ++ decN (tinv t) ++ "_")%string (top t).
+
   Definition graph_ok (roots : list nat) : bool :=
     let news := seq n0 (List.length s - n0) in
     nodup_names s && acyclic_ok && roots_ok roots
     && forallb stage_ok news && forallb pipeline_ok news && forallb wiring_ok news
+    && forallb op_prefix_ok news
     && forallb (fun id => N.eqb (tinv (get_task s id)) (tinv (get_task s (hd 0 news)))) news.
 End Judge.
 
